@@ -223,10 +223,19 @@ def r15_7(chk, mod):
     chk.ob("R15.7", MOD, "Cif.parse_loop_block", "a loop's rows are the (stripped) lines for which is_data_line holds, the line tested being the line kept",
            len(rows) == 1 and rows[0].extra["args"][0].key().endswith(".strip()") and rows[0].extra["args"][0].key()[:-len(".strip()")] in rows[0].loops[-1].iter.key(),
            fingerprint="loop-rows", found=[str(e.extra["args"][0])[:100] for e in rows])
+    merged = {e.extra["args"][0].key() for e in lv.events if e.kind == "call" and e.target is not None and e.target.key().endswith(".update")
+              and "current_data_block" in e.target.key() and e.extra.get("args") and e.extra["args"][0].as_atom()
+              and e.extra["args"][0].as_atom()[0] in ("obj", "comp")}
+    merged_terms = [e.extra["args"][0] for e in lv.events if e.kind == "call" and e.target is not None and e.target.key().endswith(".update")
+                    and "current_data_block" in e.target.key() and e.extra.get("args") and e.extra["args"][0].key() in merged]
+
     def in_block(t):
-        """does the target term live in the current data block (directly or through a local bound to it)?"""
+        """does the target term live in the current data block (directly, through a local bound to it, or in a dictionary of columns that is
+        merged into it with update(): the lists are shared)?"""
         k_ = t.key()
         if "current_data_block" in k_:
+            return True
+        if any(P.atom(a).key() in merged for a in find_atoms(t, lambda a: a[0] == "obj")) or any(mk in k_ for mk in merged):
             return True
         return any("current_data_block" in obj_init(P.atom(a)).key() for a in find_atoms(t, lambda a: a[0] == "obj"))
     cells = [e for e in apps if in_block(e.target) and e.loops and e.loops[-1].kind == "zip"]
@@ -269,6 +278,16 @@ def r15_7(chk, mod):
                 if ca_ and ca_[0] == "comp" and len(ca_) == 4 and len(ca_[3]) == 1 and not ca_[3][0][2] and ca_[3][0][1].key() == names[0].target.as_atom()[1].key():
                     pr = seq_items(ca_[2])
                     okinit = bool(pr and len(pr) == 2 and pr[1].key() == "(tuple ())" and pr[0].key().startswith(names[0].target.as_atom()[1].key() + "["))
+    if not okinit and names:
+        # columns = {k: [] for k in keys}; block.update(columns)
+        for mt in merged_terms:
+            for e in [None]:
+                if True:
+                    da = obj_init(mt).as_atom()
+                    if da and da[0] == "comp" and da[1] == "DictComp" and len(da) == 5 and len(da[4]) == 1 and not da[4][0][2] \
+                            and da[4][0][1].key() == names[0].target.as_atom()[1].key() and da[3].key() == "(tuple ())" \
+                            and da[2].key().startswith(names[0].target.as_atom()[1].key() + "["):
+                        okinit = True
     chk.ob("R15.7", MOD, "Cif.parse_loop_block", "every name of the loop starts with an empty column (also when the loop has no rows)", okinit,
            fingerprint="loop-columns", found=[str(e.target)[:80] for e in inits])
     # (e) data_<name>
@@ -611,20 +630,41 @@ def r15_4(chk, mod):
         nm = pieces_of(name_app[0].extra["args"][0])[1].value
         colv = col_app[0].extra["args"][0].as_atom()
         same_name = bool(colv and colv[0] == "sub" and colv[2][0].key() == nm.key())
-    chk.ob("R15.4", MOD, q, "each loop name line is appended together with its own column, in one loop", ok and same_name)
+    # the same pairing written as two comprehensions over one and the same list of names:
+    #   lines.extend(f"_{name}" for name in names); loop_values = [data[name] for name in names]
+    import re as _re
+    noit = lambda k_: _re.sub(r"_it#\d+", "_it", k_)
+    formB = False
+    if not (ok and same_name):
+        name_ext = [e for e in appends if e.extra.get("comp") and len(e.extra["comp"]) == 1 and not e.extra["comp"][0][2] and pieces_of(e.extra["args"][0])
+                    and pieces_of(e.extra["args"][0])[0].kind == "lit" and pieces_of(e.extra["args"][0])[0].text == "_" and len(e.loops) >= 2]
+        cols = [e for e in ev.events if e.kind == "assign" and e.name == "loop_values" and e.value is not None]
+        if len(name_ext) == 1 and len(cols) == 1:
+            src = name_ext[0].extra["comp"][0][1]
+            ca_ = obj_init(cols[0].value).as_atom()
+            if ca_ and ca_[0] == "comp" and ca_[1] == "ListComp" and len(ca_) == 4 and len(ca_[3]) == 1 and not ca_[3][0][2] \
+                    and ca_[3][0][1].key() == src.key() and name_ext[0].loops == cols[0].loops:
+                nm = pieces_of(name_ext[0].extra["args"][0])[1].value
+                ce = ca_[2].as_atom()
+                formB = bool(ce and ce[0] == "sub" and len(ce[2]) == 1 and noit(ce[2][0].key()) == noit(nm.key()))
+                if formB:
+                    name_app, col_app = name_ext, cols
+    chk.ob("R15.4", MOD, q, "each loop name line is appended together with its own column, in one loop", (ok and same_name) or formB)
     # loop_ header precedes
     hdr = [e for e in appends if string_value(e.extra["args"][0]) == "loop_"]
     chk.ob("R15.4", MOD, q, "every group of columns is introduced by a 'loop_' line", len(hdr) == 1 and
-           bool(name_app) and len(hdr[0].loops) == len(name_app[0].loops) - 1)
+           bool(name_app) and len(hdr[0].loops) == len(name_app[0].loops) - (0 if formB else 1))
     # rows: zip(*loop_values), joined by blanks, one append per row
     row_app = [e for e in appends if "join" in e.extra["args"][0].key() and "format_field" in e.extra["args"][0].key()]
     okrow = False
     if len(row_app) == 1:
         loop = row_app[0].loops[-1]
         it = loop.iter.as_atom() if loop.iter is not None else None
+        if row_app[0].extra.get("comp") and len(row_app[0].extra["comp"]) == 1 and not row_app[0].extra["comp"][0][2]:
+            it = row_app[0].extra["comp"][0][1].as_atom()          # lines.extend(" ".join(...) for row in zip(*loop_values))
         # the columns as collected: wrapped in np.array(...) they would be coerced to one dtype (an integer column next to a float column
         # is written - and read back - as floats, next to a string column as strings)
-        colobjs = {e.target.as_atom()[1].key() for e in col_app} if col_app else set()
+        colobjs = ({e.value.key() for e in col_app} if formB else {e.target.as_atom()[1].key() for e in col_app}) if col_app else set()
         okrow = bool(it and call_name(it) == "zip" and it[2] and it[2][0].as_atom() and it[2][0].as_atom()[0] == "starred"
                      and it[2][0].as_atom()[1].key() in colobjs)
         sep = row_app[0].extra["args"][0].as_atom()
